@@ -17,7 +17,17 @@ UnlinkWrite == << Op("unlink", "state", "", 0, 0, FALSE, FALSE), Op("open", "sta
 (* the temporary file is opened without O_TRUNC: harmless until a shorter state follows a killed longer one *)
 TempNoTrunc == << Op("open", "tmp", "", 3, 0, FALSE, TRUE), Op("write", "", "", 3, NewLen, FALSE, FALSE), Op("fsync", "", "", 3, 0, FALSE, FALSE),
                   Op("close", "", "", 3, 0, FALSE, FALSE), Op("rename", "tmp", "state", 0, 0, FALSE, FALSE) >>
-Prog == CASE Design = "truncwrite" -> TruncWrite [] Design = "temprename" -> TempRename [] Design = "temprename2" -> TempRename2
+(* the temporary file is written, cannot be renamed over the state file (the call fails: it is not part of the program),
+   is removed, and the state is written IN PLACE instead: two sessions of NewLen bytes each; the second one is TruncWrite *)
+TempThenInPlace == << Op("open", "tmp", "", 3, 0, TRUE, TRUE), Op("write", "", "", 3, NewLen, FALSE, FALSE), Op("fsync", "", "", 3, 0, FALSE, FALSE),
+                      Op("close", "", "", 3, 0, FALSE, FALSE), Op("unlink", "tmp", "", 0, 0, FALSE, FALSE),
+                      Op("open", "state", "", 3, 0, TRUE, TRUE), Op("write", "", "", 3, NewLen \div 2, FALSE, FALSE), Op("write", "", "", 3, NewLen - NewLen \div 2, FALSE, FALSE),
+                      Op("close", "", "", 3, 0, FALSE, FALSE) >>
+(* the temporary file is written and left behind, the rename is refused, the save fails as a whole: the state file is
+   never touched (Recoverable and NeverRefuses hold; SaveCompletes is not demanded of a refused save) *)
+TempRefused == << Op("open", "tmp", "", 3, 0, TRUE, TRUE), Op("write", "", "", 3, NewLen, FALSE, FALSE), Op("fsync", "", "", 3, 0, FALSE, FALSE),
+                  Op("close", "", "", 3, 0, FALSE, FALSE) >>
+Prog == CASE Design = "tempinplace" -> TempThenInPlace [] Design = "temprefused" -> TempRefused [] Design = "truncwrite" -> TruncWrite [] Design = "temprename" -> TempRename [] Design = "temprename2" -> TempRename2
           [] Design = "tempnotrunc" -> TempNoTrunc [] OTHER -> UnlinkWrite
 VARIABLES dir, ino, fds, pc, killed, nextIno, gen, loaded, refused, act
 INSTANCE StateFile
